@@ -32,8 +32,8 @@ def close(a, b, tol=TOL):
 class Tally:
     """clause label -> (number of entries checked, first failing entry)"""
 
-    def __init__(self, family, targets):
-        self.family, self.targets = family, targets
+    def __init__(self, family, targets, prop="C17", what="catalogue entry"):
+        self.family, self.targets, self.prop, self.what = family, targets, prop, what
         self.count = {}
         self.fail = {}
         self.text = {}
@@ -55,17 +55,17 @@ class Tally:
     def results(self, scope):
         out = []
         for label, n in sorted(self.count.items()):
-            common = dict(prop="C17", engine="E0-enumeration (native, runtime contracts)", scope=scope, function=", ".join(self.targets),
+            common = dict(prop=self.prop, engine="E0-enumeration (native, runtime contracts)", scope=scope, function=", ".join(self.targets),
                           clause=self.text.get(label, label), extra=dict(entries=n))
             if label in self.fail:
                 entry, detail = self.fail[label]
-                out.append(ObResult(name=f"C17/{self.family}/{label}", status=R.REFUTED, witness=dict(entry=repr(entry)),
-                                    replay=dict(confirmed=True, how="the real generator called natively with this catalogue entry", entry=repr(entry), observed=detail),
-                                    detail=f"clause `{label}` fails on the real code for catalogue entry {entry!r}: {detail}", **common))
+                out.append(ObResult(name=f"{self.prop}/{self.family}/{label}", status=R.REFUTED, witness=dict(entry=repr(entry)),
+                                    replay=dict(confirmed=True, how=f"the real function called natively with this {self.what}", entry=repr(entry), observed=detail),
+                                    detail=f"clause `{label}` fails on the real code for {self.what} {entry!r}: {detail}", **common))
             else:
-                out.append(ObResult(name=f"C17/{self.family}/{label}", status=R.BOUNDED_OK, detail=f"{n} catalogue entries", **common))
+                out.append(ObResult(name=f"{self.prop}/{self.family}/{label}", status=R.BOUNDED_OK, detail=f"{n} {self.what} instances", **common))
         if not self.count:
-            out.append(ObResult(name=f"C17/{self.family}/vacuous", status=R.FAULT, detail="no catalogue entry was enumerated", prop="C17",
+            out.append(ObResult(name=f"{self.prop}/{self.family}/vacuous", status=R.FAULT, detail=f"no {self.what} was enumerated", prop=self.prop,
                                 engine="E0-enumeration", scope=scope, function=", ".join(self.targets)))
         return out
 
